@@ -67,6 +67,13 @@ fn main() {
             let v: serde_json::Value = serde_json::from_str(&text).unwrap_or_else(|_| usage());
             std::process::exit(checks::c20_emit(&v));
         }
+        "ast" => {
+            // debugging aid: gev ast <file.wxml> prints the parsed AST and diagnostics
+            let text = std::fs::read_to_string(&args[2]).unwrap_or_else(|_| usage());
+            let (t, mut ps) = glass_easel_template_compiler::parse::parse("p", &text);
+            println!("{:#?}", t);
+            println!("{:?}", ps.take_warnings());
+        }
         "isolate-worker" => {
             isolate::worker_main();
         }
